@@ -26,6 +26,7 @@ from .sqlite_model import SqliteModel
 from .symdb import Col, SymDB, TableSpec
 
 BACKENDS = ("django", "sa_select", "sa_query", "sa_core")
+ASSUMED_ID = "sa-function-missing-on-sqlite"
 SA_BACKENDS = ("sa_select", "sa_query", "sa_core")
 FIELD_MAP = {"a": "n", "b": "m", "s": "name", "u": "title", "f": "flag"}
 T_ITEM = TableSpec("vt_item", [Col("id", "int", nullable=False, pk=True), Col("n", "int"), Col("m", "int"),
@@ -144,13 +145,13 @@ def missing_functions(backend: str, tree) -> List[str]:
 
 
 # ====================================================================== replay through the real ORM
-def replay(backend: str, text: str, content: Dict[str, List[dict]], model: str = "Item", base: Optional[str] = None
-           ) -> Tuple[str, Any]:
+def replay(backend: str, text: str, content: Dict[str, List[dict]], model: str = "Item", base: Optional[str] = None,
+           assumed: bool = False) -> Tuple[str, Any]:
     """-> ('rows', sorted list of root primary keys, duplicates kept) | ('error', message)"""
     try:
         if backend == "django":
             return _replay_django(text, content, model, base)
-        return _replay_sa(backend, text, content, model, base)
+        return _replay_sa(backend, text, content, model, base, assumed)
     except Exception as e:                                         # noqa: BLE001
         return "error", f"{type(e).__name__}: {str(e).splitlines()[0] if str(e) else ''}"
 
@@ -182,11 +183,11 @@ def _replay_django(text, content, model, base):
     return "rows", sorted(qs.values_list("pk", flat=True))
 
 
-def _replay_sa(backend, text, content, model, base):
+def _replay_sa(backend, text, content, model, base, assumed=False):
     import sqlalchemy as sa
     from sqlalchemy.orm import Session
     from ..models import sa as S, setup
-    eng = setup.sa_engine()
+    eng = setup.sa_engine(register_assumed=assumed)
     try:
         with eng.begin() as conn:
             conn.exec_driver_sql("PRAGMA foreign_keys=OFF")
@@ -267,6 +268,7 @@ class ScalarCheck:
             self.ccons += cons
         self.ref = None
         self.ref_keep = None
+        self._adj = None
         self.progs: Dict[str, dict] = {}
 
     # -------------------------------------------------------------- helpers
@@ -312,14 +314,18 @@ class ScalarCheck:
             return p
         sel = p["tree"][1]
         missing = missing_functions(backend, sel["where"]) if sel["where"] is not None else []
-        if missing:
+        p["assumed"] = []
+        if missing and ASSUMED_ID in self.active and backend in SA_BACKENDS and {m.upper() for m in missing} <= {"STRPOS", "CONCAT"}:
+            p["assumed"] = missing           # known finding: check the program with strpos = INSTR, concat = ||
+        elif missing:
             p["status"] = "nofunc"
             p["why"] = f"function(s) {missing} do not exist in this SQLite"
             p["missing"] = missing
             return p
         try:
             track = any(r in regions.DYNAMIC for r in self.active)
-            model = SqliteModel(self.db, scope=[{"vt_item": self.slot}], consts=self.consts, track_like=track)
+            model = SqliteModel(self.db, scope=[{"vt_item": self.slot}], consts=self.consts, track_like=track,
+                                assume_functions=bool(p["assumed"]))
             p["keep"] = model.where(sel["where"]) if sel["where"] is not None else V.TRUE
             p["side"] = model.side
             p["likes"] = model.likes
@@ -329,6 +335,35 @@ class ScalarCheck:
             p["status"] = "outside"
             p["why"] = str(e)
         return p
+
+    def region_constraints(self, backend: str, p: dict) -> Tuple[Dict[str, Any], List[Any]]:
+        """({id -> `not region`} for every active dynamic known finding that applies, extra side conditions)"""
+        if not self.active:
+            return {}, []
+        ctx: Dict[str, Any] = {"likes": p.get("likes", []), "coalesced": p.get("coalesced", []), "sql_keep": p.get("keep"),
+                               "adjusted": {}, "nonliteral_patterns": []}
+        if "like-field-pattern-wildcards" in self.active:
+            # OData-level statement of the region: the reference value of a non-literal pattern argument has % or _
+            for sub in G.subterms(self.term):
+                if sub[0] == "call" and sub[1] in G.STR_FUNCS_BOOL and len(sub[2]) == 2 and sub[2][1][0] != "str":
+                    try:
+                        v = self.ref.ev(sub[2][1])
+                    except V.Unmodelled:
+                        continue
+                    if getattr(v, "kind", None) == "str":
+                        ctx["nonliteral_patterns"].append(v)
+        extra: List[Any] = []
+        if "sa-div-true-division" in self.active and backend in SA_BACKENDS and "op:div" in self.feats:
+            if self._adj is None:
+                try:
+                    adj = R.OdataRef(self.slot.cells, self.consts, real_div=True)
+                    self._adj = (adj.keeps(self.term), adj.side)
+                except V.Unmodelled:
+                    self._adj = (None, [])
+            if self._adj[0] is not None:
+                ctx["adjusted"]["real_div"] = self._adj[0]
+                extra += self._adj[1]
+        return regions.dynamic_map(self.active, ctx), extra
 
     def decode(self, m) -> Tuple[dict, Dict[int, int], tuple, str]:
         content = self.db.decode(m)
@@ -365,26 +400,28 @@ class ScalarCheck:
         except V.Unmodelled as e:
             self.emit(ob, backend, "outside", why=f"reference: {e}")
             return
-        s = self.solver(p["side"] + self.ref.side)
-        s.add(regions.dynamic_constraints(self.active, {"likes": p["likes"], "coalesced": p["coalesced"]}))
-        s.push()
-        s.add(p["keep"] != ref_keep)
-        t0 = time.time()
-        r = s.check()
-        dt = round(time.time() - t0, 4)
-        if r == z3.unknown:
-            self.emit(ob, backend, "inconclusive", solver_s=dt, why=f"z3: {s.reason_unknown()}")
+        rmap, rside = self.region_constraints(backend, p)
+        res = regions.solve_with_regions(lambda: self.solver(p["side"] + self.ref.side), p["keep"] != ref_keep, rmap, rside)
+        dt = res["solver_s"]
+        if res["status"] == "unknown":
+            self.emit(ob, backend, "inconclusive", solver_s=dt, why=res["why"])
             return
-        if r == z3.unsat:
-            s.pop()
-            r2 = s.check()
-            if r2 == z3.unsat:
-                self.emit(ob, backend, "outside", solver_s=dt, why="vacuous: the assumptions exclude every row")
-            elif r2 != z3.sat:
-                self.emit(ob, backend, "inconclusive", solver_s=dt, why=f"vacuity check: z3 {r2}")
+        if res["status"] == "vacuous":
+            self.emit(ob, backend, "outside", solver_s=dt, why="vacuous: the assumptions exclude every row")
+            return
+        if res["status"] == "known":
+            self.emit(ob, backend, "known", solver_s=dt, known_id=res["known_id"],
+                      detail="counterexamples exist only inside the known-finding region(s) " + ", ".join(rmap))
+            return
+        if res["status"] == "unsat":
+            if p.get("assumed"):
+                # right under the assumption strpos = INSTR / concat = ||, but the functions do not exist here
+                self.emit(ob, backend, "known", solver_s=dt, known_id=ASSUMED_ID,
+                          detail=f"equivalent to the reference when {p['assumed']} are read as INSTR / ||")
             else:
                 self.emit(ob, backend, "discharged", solver_s=dt)
             return
+        s = res["solver"]
         m = _shrink(s, _prefs(self.db, "vt_item", self.consts, self.term))
         pred_sql = bool(z3.is_true(m.eval(p["keep"], True)))
         pred_ref = bool(z3.is_true(m.eval(ref_keep, True)))
@@ -402,7 +439,9 @@ class ScalarCheck:
         except R.Undefined as e:
             self.emit(ob, backend, "harness_error", solver_s=dt, why=f"witness in an assumed-away region: {e}", witness=w)
             return
-        kind, got = replay(backend, ctext, content)
+        kind, got = replay(backend, ctext, content, assumed=bool(p.get("assumed")))
+        if p.get("assumed"):
+            w["assumption"] = f"{p['assumed']} registered on the replay connection as INSTR / NULL-propagating ||"
         w["odata_keeps_row"] = keep
         w["orm_result"] = got
         if kind == "error":
@@ -511,8 +550,8 @@ class ScalarCheck:
         content, lit_vals, cterm, _ = self.decode(m)
         kw1, kw2 = p1.get("kw"), p2.get("kw")
         ct1, ct2 = G.to_text(cterm, self.full, kw1), G.to_text(cterm, self.full, kw2)
-        k1, got1 = replay(b1, ct1, content)
-        k2, got2 = replay(b2, ct2, content)
+        k1, got1 = replay(b1, ct1, content, assumed=bool(p1.get("assumed")))
+        k2, got2 = replay(b2, ct2, content, assumed=bool(p2.get("assumed")))
         w = {"filter": ct1, "term": cterm, "backend": b1, "rows": content, "other_backend": b2, "other_filter": ct2,
              "sql": build(b1, ct1)[1], "other_sql": build(b2, ct2)[1], "orm_result": got1, "other_result": got2}
         if (k1, got1) != (k2, got2):
